@@ -3,6 +3,9 @@
   loop = VirtualLoop()            # time() is virtual; when nothing is ready the clock jumps to the next timer
   loop.run(coro)                  # like asyncio.run on this loop (sets it as the current loop)
   FakeTransport()                 # records (virtual time, bytes) writes and close() calls
+                                  # read side:  feed() honours pause_reading()/resume_reading()
+                                  # write side: enable_write_flow(high, low) + peer_stops_reading()/peer_reads() make it call
+                                  #             protocol.pause_writing()/resume_writing() the way an asyncio socket transport does
   await turns(k)                  # yield k loop iterations without advancing time
   await until(t)                  # sleep until absolute virtual time t
   loop.hold(t)                    # called from inside a callback: that callback *blocks* until virtual time t (the clock moves on
@@ -100,9 +103,13 @@ class FakeTransport(asyncio.Transport):
 
     def write(self, data):
         self.writes.append((self._now(), bytes(data)))
+        if self._wflow:
+            self._buffer_write(len(data))
 
     def close(self):
         self.closes.append(self._now())
+        if self._wflow and self._wbuf == 0:
+            self._schedule_connection_lost()
 
     def is_closing(self):
         return bool(self.closes)
@@ -156,6 +163,108 @@ class FakeTransport(asyncio.Transport):
             self.protocol.data_received(chunk)
             if box and not self._paused:
                 (self._loop or asyncio.get_event_loop()).call_soon(self._deliver_pending)
+
+    # ---- write side with flow control (additive: nothing below is active until `enable_write_flow()` is called; `write()` always
+    # records the call first — a write the transport merely buffers is still a transmission by the session).
+    # What an asyncio selector transport does (selector_events._SelectorSocketTransport + transports._FlowControlMixin):
+    #   write(data)   the bytes go to the socket while the kernel takes them; what it does not take is appended to the transport's
+    #                 buffer; if the buffer is then above the HIGH-water mark and the protocol is not paused: `protocol.pause_writing()`,
+    #                 synchronously, from inside write();
+    #   _write_ready  (a loop callback, when the peer has read and the socket is writable again) sends from the buffer, then
+    #                 `_maybe_resume_protocol()`: if the protocol is paused and the buffer is at or below the LOW-water mark:
+    #                 `protocol.resume_writing()` — ALSO on a transport that is already closing (close() with a non-empty buffer keeps
+    #                 flushing); once the buffer of a closing transport is empty: `protocol.connection_lost(None)`;
+    #   exceptions raised by either callback go to the loop's exception handler.
+    # The peer is modelled by `peer_stops_reading(kernel)` (from now on the kernel takes `kernel` more bytes, the rest is buffered) and
+    # `peer_reads(n)` (it reads n buffered bytes, or everything and goes on reading).  `flow_log` records the callbacks made.
+    _wflow = False
+    _wbuf = 0
+
+    def enable_write_flow(self, high=64 * 1024, low=None, connection_lost=False):
+        """switch the write-side model on.  high/low: water marks in bytes (asyncio's defaults: 64 KiB and high // 4);
+        connection_lost: call `protocol.connection_lost(None)` once a closed transport has flushed its buffer (as asyncio does)"""
+        self._wflow = True
+        self._high = high
+        self._low = high // 4 if low is None else low
+        self._wbuf = 0                  # bytes in the transport's own buffer
+        self._peer_reading = True
+        self._kernel = 0                # bytes the kernel still accepts although the peer has stopped reading
+        self._proto_paused = False      # the transport's `_protocol_paused`
+        self._lost = False
+        self._want_lost = connection_lost
+        self.flow_log = []              # ('pause_writing' | 'resume_writing' | 'connection_lost', virtual time)
+
+    def get_write_buffer_size(self):
+        return self._wbuf
+
+    def get_write_buffer_limits(self):
+        return (self._low, self._high) if self._wflow else (16 * 1024, 64 * 1024)
+
+    def set_write_buffer_limits(self, high=None, low=None):
+        if not self._wflow:
+            self.enable_write_flow()
+        if high is None:
+            high = 64 * 1024 if low is None else 4 * low
+        self._high, self._low = high, (high // 4 if low is None else low)
+        self._maybe_pause_protocol()
+
+    def is_write_paused(self):
+        """has the transport told the protocol to stop writing (and not yet to resume)"""
+        return self._wflow and self._proto_paused
+
+    def peer_stops_reading(self, kernel=0):
+        self._peer_reading = False
+        self._kernel = kernel
+
+    def peer_reads(self, n=None):
+        """the peer reads `n` of the buffered bytes (None: everything, and it keeps reading from now on); the transport notices in a
+        later loop callback (`_write_ready`)"""
+        if n is None:
+            self._peer_reading = True
+            self._wbuf = 0
+        else:
+            self._wbuf = max(0, self._wbuf - n)
+        (self._loop or asyncio.get_event_loop()).call_soon(self._write_ready)
+
+    def _buffer_write(self, n):
+        if self._peer_reading or self._lost:
+            return
+        take = min(n, self._kernel)
+        self._kernel -= take
+        self._wbuf += n - take
+        self._maybe_pause_protocol()
+
+    def _call_protocol(self, name, *args):
+        self.flow_log.append((name, self._now()))
+        fn = getattr(self.protocol, name, None)
+        if fn is None:
+            return
+        try:
+            fn(*args)
+        except (SystemExit, KeyboardInterrupt):
+            raise
+        except BaseException as exc:      # noqa — as asyncio: reported to the loop, the transport goes on
+            (self._loop or asyncio.get_event_loop()).call_exception_handler(
+                {'message': f'protocol.{name}() failed', 'exception': exc, 'transport': self, 'protocol': self.protocol})
+
+    def _maybe_pause_protocol(self):
+        if self._wbuf > self._high and not self._proto_paused:
+            self._proto_paused = True
+            self._call_protocol('pause_writing')
+
+    def _write_ready(self):
+        if self._lost:
+            return
+        if self._proto_paused and self._wbuf <= self._low:
+            self._proto_paused = False
+            self._call_protocol('resume_writing')
+        if self._wbuf == 0 and self.closes:
+            self._schedule_connection_lost()
+
+    def _schedule_connection_lost(self):
+        if self._want_lost and not self._lost:
+            self._lost = True
+            (self._loop or asyncio.get_event_loop()).call_soon(self._call_protocol, 'connection_lost', None)
 
 async def turns(k=1):
     for _ in range(k):
